@@ -5,6 +5,7 @@
 
 #include <etl/_config/all.hpp>
 
+#include <etl/_compare/strong_ordering.hpp>
 #include <etl/_concepts/copy_constructible.hpp>
 #include <etl/_concepts/move_constructible.hpp>
 #include <etl/_concepts/same_as.hpp>
@@ -690,6 +691,27 @@ template <typename T>
 [[nodiscard]] constexpr auto operator<(etl::nullopt_t /*unused*/, optional<T> const& opt) noexcept -> bool
 {
     return static_cast<bool>(opt);
+}
+
+/// Compares opt with a nullopt: an engaged optional is greater than nullopt, an empty one is equal to it.
+/// Provides <=, >, >= (and the reversed forms) against nullopt.
+///
+/// \relates optional
+/// \ingroup optional
+template <typename T>
+[[nodiscard]] constexpr auto operator<=>(optional<T> const& opt, etl::nullopt_t /*unused*/) noexcept
+    -> etl::strong_ordering
+{
+    return opt.has_value() ? etl::strong_ordering::greater : etl::strong_ordering::equal;
+}
+
+/// \relates optional
+/// \ingroup optional
+template <typename T>
+[[nodiscard]] constexpr auto operator<=>(etl::nullopt_t /*unused*/, optional<T> const& opt) noexcept
+    -> etl::strong_ordering
+{
+    return opt.has_value() ? etl::strong_ordering::less : etl::strong_ordering::equal;
 }
 
 /// \brief Compares opt with a value. The values are compared (using the
